@@ -224,7 +224,7 @@ func TestC06(t *testing.T) {
 	if r.Quick() {
 		var keep []dirCase
 		for i, d := range dcs {
-			if i%3 == 0 {
+			if i%2 == 0 {
 				keep = append(keep, d)
 			}
 		}
@@ -248,7 +248,7 @@ func TestC06(t *testing.T) {
 		})
 	}
 	// entities at the end of a path inside a tree
-	for i := 0; i < r.Pick(8, 80); i++ {
+	for i := 0; i < r.Pick(24, 300); i++ {
 		i := i
 		r.Case(fmt.Sprintf("tree/%d", i), map[string]any{"tree": i}, func(c *mon.Case) {
 			root := genTree(c.Rand(), 3, true)
